@@ -4,7 +4,8 @@ import Gmx.Model.Life
 
 Extension of `Gmx.Life` (the deposit-only machine stays untouched). Every action has a kind:
 `0` deposit, `1` withdrawal, `2` market swap long→short, `3` market swap short→long, `4` market-increase order
-(long position, long-token collateral: the collateral joins the pool, nothing is paid out); a slot is
+(long position, long-token collateral: the collateral joins the pool, nothing is paid out), `5` market-decrease order on
+that position (nothing escrowed; outputs, claimable amounts and whether the position is closed are declared); a slot is
 `(user, kind, index)`. The amounts only the pool maths decides (market tokens minted by a deposit, tokens paid
 out by a withdrawal or a swap) are PARAMETERS `x y` of `exec` (the harness declares the amounts observed on the
 real program and checks them); everything else — acceptance, outcome class, every balance of users, escrows,
@@ -31,6 +32,8 @@ structure Act where
   soft : Bool
   /-- the funds receiver named at creation (may differ from the owner of the slot) -/
   receiver : Nat
+  /-- position orders: size delta in cents of USD -/
+  size : Nat := 0
   deriving Repr
 
 structure St where
@@ -44,6 +47,12 @@ structure St where
   recShort : Nat
   minted : Nat
   burned : Nat
+  /-- per user: does the (long, long-collateral) position account exist, and its size in cents of USD -/
+  posOpen : Nat → Bool := fun _ => true
+  posSize : Nat → Nat := fun _ => 0
+  /-- tokens parked in claimable accounts (users' and the holding's), long / short -/
+  claimLong : Nat := 0
+  claimShort : Nat := 0
 
 /-- market-token supply. -/
 def supply (s : St) : Nat := s.minted - s.burned
@@ -57,7 +66,8 @@ def setAct (s : St) (u k i : Nat) (x : Option Act) : St :=
   { s with acts := fun a b c => if a = u ∧ b = k ∧ c = i then x else s.acts a b c }
 
 def init (long short : Nat) (now : Int) : St :=
-  ⟨now, 0, fun _ => ⟨long, short, 0⟩, fun _ _ _ => none, 0, 0, 0, 0, 0, 0⟩
+  { now := now, priceTs := 0, users := fun _ => ⟨long, short, 0⟩, acts := fun _ _ _ => none, vaultLong := 0, vaultShort := 0,
+    recLong := 0, recShort := 0, minted := 0, burned := 0 }
 
 def tick (s : St) (dt : Nat) : St := { s with now := s.now + dt }
 def price (s : St) (age : Nat) : St :=
@@ -69,7 +79,8 @@ def escrowOf (usr : User) (k a b : Nat) : Option (Nat × Nat × Nat) :=
   else if k = 1 then (if a = 0 ∨ usr.mt < a then none else some (0, 0, a))
   else if k = 2 then (if a = 0 ∨ usr.long < a then none else some (a, 0, 0))
   else if k = 3 then (if a = 0 ∨ usr.short < a then none else some (0, a, 0))
-  else (if (a = 0 ∧ b = 0) ∨ usr.long < a then none else some (a, 0, 0))   -- increase: `b` = size in USD
+  else if k = 4 then (if (a = 0 ∧ b = 0) ∨ usr.long < a then none else some (a, 0, 0))   -- increase: `b` = size in USD
+  else some (0, 0, 0)   -- decrease: `a` = collateral to withdraw, `b` = size in cents; nothing is escrowed
 
 def create (s : St) (u k i a b : Nat) (soft : Bool) (execLamports : Nat) (receiver : Nat) : Option St :=
   match s.acts u k i with
@@ -80,15 +91,21 @@ def create (s : St) (u k i a b : Nat) (soft : Bool) (execLamports : Nat) (receiv
     | none => none
     | some (l, sh, m) =>
       if execLamports < minExecLamports k then none else
-      some (setAct (setUser s u ⟨usr.long - l, usr.short - sh, usr.mt - m⟩) u k i
-        (some ⟨0, l, sh, m, s.now, execLamports, soft, receiver⟩))
+      if k = 5 ∧ s.posOpen u = false then none else     -- a decrease order needs the position account
+      let s1 := setAct (setUser s u ⟨usr.long - l, usr.short - sh, usr.mt - m⟩) u k i
+        (some ⟨0, l, sh, m, s.now, execLamports, soft, receiver, if k = 4 then 100 * b else if k = 5 then b else 0⟩)
+      -- the client (re-)prepares the position account before an increase order
+      some (if k = 4 then { s1 with posOpen := fun v => if v = u then true else s.posOpen v } else s1)
+
+/-- `prepare_position` (its own transaction; the client sends it before every increase order). -/
+def prepPosition (s : St) (u : Nat) : St := { s with posOpen := fun v => if v = u then true else s.posOpen v }
 
 inductive Outcome where
   | completed | cancelled
   deriving DecidableEq, Repr
 
 /-- a successful execution of kind `k` with the declared result amounts `x y`. -/
-def complete (s : St) (u k i : Nat) (act : Act) (x y : Nat) : Option St :=
+def complete (s : St) (u k i : Nat) (act : Act) (x y : Nat) (cl cs ch : Nat := 0) (pc : Bool := false) : Option St :=
   if k = 0 then
     some { setAct s u k i (some { act with state := 1, escLong := 0, escShort := 0, escMt := act.escMt + x }) with
            vaultLong := s.vaultLong + act.escLong, vaultShort := s.vaultShort + act.escShort,
@@ -108,39 +125,65 @@ def complete (s : St) (u k i : Nat) (act : Act) (x y : Nat) : Option St :=
     some { setAct s u k i (some { act with state := 1, escShort := 0, escLong := act.escLong + x }) with
            vaultShort := s.vaultShort + act.escShort, recShort := s.recShort + act.escShort,
            vaultLong := s.vaultLong - x, recLong := s.recLong - x }
-  else
+  else if k = 4 then
     some { setAct s u k i (some { act with state := 1, escLong := 0 }) with
-           vaultLong := s.vaultLong + act.escLong, recLong := s.recLong + act.escLong }
+           vaultLong := s.vaultLong + act.escLong, recLong := s.recLong + act.escLong,
+           posSize := fun v => if v = u then s.posSize u + act.size else s.posSize v }
+  else
+    -- decrease: outputs `x y` to the escrow, `cl cs` to the owner's claimable accounts, `ch` (long) to the holding's;
+    -- `pc` = the position ends closed (full close, or a remainder too small to stay open)
+    if s.posOpen u = false ∨ s.posSize u = 0 then none else
+    if ¬ pc ∧ s.posSize u ≤ act.size then none else
+    if s.recLong < x + cl + ch ∨ s.recShort < y + cs then none else
+    some { setAct s u k i (some { act with state := 1, escLong := act.escLong + x, escShort := act.escShort + y }) with
+           vaultLong := s.vaultLong - (x + cl + ch), recLong := s.recLong - (x + cl + ch),
+           vaultShort := s.vaultShort - (y + cs), recShort := s.recShort - (y + cs),
+           claimLong := s.claimLong + cl + ch, claimShort := s.claimShort + cs,
+           posSize := fun v => if v = u then (if pc then 0 else s.posSize u - act.size) else s.posSize v,
+           posOpen := fun v => if v = u then !pc else s.posOpen v }
+
+/-- a soft failure caused by an EXECUTION error: the action becomes cancelled; nothing moves — except that a position
+order (increase or decrease) failing on an empty position closes the (empty) position account. (An EXPIRED order
+is cancelled without touching the position account.) -/
+def cancelState (s : St) (u k i : Nat) (act : Act) : St :=
+  let s1 := setAct s u k i (some { act with state := 2 })
+  if k ≥ 4 ∧ s.posSize u = 0 then { s1 with posOpen := fun v => if v = u then false else s.posOpen v } else s1
 
 /-- `execute_deposit` / `execute_withdrawal` / `execute_increase_or_swap_order_v2`: `(state, outcome, fee)`.
 `fail` = the pool maths rejects the action (declared, like `x y`): a soft failure unless `throw`. -/
-def exec (s : St) (who : Who) (u k i fee : Nat) (throw : Bool) (fail : Bool) (x y : Nat) (hard : Bool := false) : Option (St × Outcome × Nat) :=
+def exec (s : St) (who : Who) (u k i fee : Nat) (throw : Bool) (fail : Bool) (x y : Nat) (hard : Bool := false)
+    (cl cs ch : Nat := 0) (pc : Bool := false) : Option (St × Outcome × Nat) :=
   if hard then none else     -- position orders: a pool-maths rejection that aborts even without `throw` (declared)
   if who ≠ .keeper then none else
   match s.acts u k i with
   | none => none
   | some act =>
     if act.state ≠ 0 then none else
+    if k ≥ 4 ∧ s.posOpen u = false then none else       -- position orders need the position account
     if s.now - s.priceTs > HEARTBEAT then none else
     if s.priceTs < act.createdAt then none else
     let paid := if fee ≤ act.execLamports then fee else act.execLamports
     let soft : Option (St × Outcome × Nat) :=
+      if throw then none else some (cancelState s u k i act, .cancelled, paid)
+    let expired : Option (St × Outcome × Nat) :=
       if throw then none else some (setAct s u k i (some { act with state := 2 }), .cancelled, paid)
-    if act.createdAt + REQUEST_EXPIRATION < s.priceTs then soft
+    if act.createdAt + REQUEST_EXPIRATION < s.priceTs then expired
     else if act.soft || fail then soft
-    else (complete s u k i act x y).map (fun s' => (s', .completed, paid))
+    else (complete s u k i act x y cl cs ch pc).map (fun s' => (s', .completed, paid))
 
 /-- the INPUT side of an action's escrow (what the owner put in and gets refunded): deposit collateral,
 withdrawal market tokens, swap input token. -/
 def inSide (k : Nat) (a : Act) : Nat × Nat × Nat :=
   if k = 0 then (a.escLong, a.escShort, 0) else if k = 1 then (0, 0, a.escMt)
-  else if k = 3 then (0, a.escShort, 0) else (a.escLong, 0, 0)
+  else if k = 2 then (a.escLong, 0, 0) else if k = 3 then (0, a.escShort, 0)
+  else if k = 4 then (a.escLong, 0, 0) else (0, 0, 0)
 
 /-- the OUTPUT side (the proceeds of a successful execution): minted market tokens, withdrawn collateral,
 swap output token. -/
 def outSide (k : Nat) (a : Act) : Nat × Nat × Nat :=
   if k = 0 then (0, 0, a.escMt) else if k = 1 then (a.escLong, a.escShort, 0)
-  else if k = 2 then (0, a.escShort, 0) else if k = 3 then (a.escLong, 0, 0) else (0, 0, 0)
+  else if k = 2 then (0, a.escShort, 0) else if k = 3 then (a.escLong, 0, 0)
+  else if k = 4 then (0, 0, 0) else (a.escLong, a.escShort, 0)
 
 def credit (s : St) (v : Nat) (t : Nat × Nat × Nat) : St :=
   setUser s v ⟨(s.users v).long + t.1, (s.users v).short + t.2.1, (s.users v).mt + t.2.2⟩
@@ -161,6 +204,7 @@ inductive Op where
   | price (age : Nat)
   | create (u k i a b : Nat) (soft : Bool) (execLamports : Nat) (receiver : Nat)
   | exec (who : Who) (u k i fee : Nat) (throw : Bool) (fail : Bool) (x y : Nat) (hard : Bool := false)
+      (cl cs ch : Nat := 0) (pc : Bool := false)
   | close (who : Who) (u k i : Nat)
 
 inductive Event where
@@ -174,8 +218,11 @@ inductive Event where
 def step (s : St) : Op → St × Event
   | .tick dt => (tick s dt, .none)
   | .price age => (price s age, .none)
-  | .create u k i a b soft el rc => match create s u k i a b soft el rc with | some s' => (s', .created u k i) | none => (s, .none)
-  | .exec who u k i fee throw fail x y hard => match exec s who u k i fee throw fail x y hard with | some (s', o, _) => (s', .executed u k i o) | none => (s, .none)
+  | .create u k i a b soft el rc =>
+    match create s u k i a b soft el rc with
+    | some s' => (s', .created u k i)
+    | none => (if k = 4 then prepPosition s u else s, .none)   -- the position was prepared even if the order is rejected
+  | .exec who u k i fee throw fail x y hard cl cs ch pc => match exec s who u k i fee throw fail x y hard cl cs ch pc with | some (s', o, _) => (s', .executed u k i o) | none => (s, .none)
   | .close who u k i => match close s who u k i with | some s' => (s', .closed u k i) | none => (s, .none)
 
 def run (s : St) : List Op → St × List Event
